@@ -133,10 +133,15 @@ def generate(rng, tier):
                       "tol": rng.choice([1e-3, 1e-6, 1e-9])}
     else:
         case["edges"] = gen_edges(rng, n, False, False)
+        case["kw"] = {}
         if fn == "topological_sort_edges" and rng.random() < 0.6:  # make acyclic instances common ...
             keep_loops = rng.random() < 0.3  # ... and instances whose only cycle is a self loop
             case["edges"] = [[min(u, v), max(u, v)] for u, v in case["edges"] if u != v or keep_loops]
-        case["kw"] = {}
+    # optional arguments are left out now and then, so that both replicas run on their own defaults
+    # (an adapter whose default differs from the Python body's is a visible back-end difference)
+    for k in list(case["kw"]):
+        if rng.random() < 0.3:
+            del case["kw"][k]
     return case
 
 
@@ -248,7 +253,7 @@ def compare(case, a, b, la, lb):
     sa, sb = a.status.name, b.status.name
     tgt = case["kw"].get("target")
     if name == "pagerank_edges":
-        tol = case["kw"]["tol"]
+        tol = case["kw"].get("tol", 1e-6)
         d = max(abs(a.solution[i] - b.solution[i]) for i in range(case["n"]))
         if d > 10 * tol:
             return "answers_differ", f"PageRank scores differ by {d} > 10*tol: {la}={a.solution} {lb}={b.solution}"
